@@ -50,7 +50,9 @@ class UnionDomain(Domain):
     def __call__(self, **data):
         domain_a = self.domain_a(**data)
         domain_b = self.domain_b(**data)
-        return UnionDomain(domain_a, domain_b, disjoint=self.disjoint)
+        return self._evaluate_user_volume(
+            UnionDomain(domain_a, domain_b, disjoint=self.disjoint), **data
+        )
 
     def bounding_box(self, params=Points.empty(), device="cpu"):
         bounds_a = self.domain_a.bounding_box(params, device=device)
